@@ -25,6 +25,7 @@ EARLY = [
     "3(X)", "3(nx)", "3([X])", "3(1[[x]])", "3(n[X|x])", "1{X}", "2→c {←c |←c ‹→c x}", "2→c {←c |←c ‹→c [X]}", "λX;†", "1λ[X];†",
     "λ1[X|2];†", "@h|1X2;@h;", "@h|1[X];@h;", "3ɾƛX;L", "3ɾƛ[X];L", "3ɾ'X;L", "⟨X|1⟩", "3(⟨X⟩)", "3(⟨x⟩)", "3(λX;†)", "λ3(X);†",
     "λ2(nx);†", "3(vX)", "3λ:[‹x];†", "2(1{X})", "2(2(X)X)", "@h|2(X)n;@h;", "λ2(X)X;†", "2(λ1[X];†x)", "3ɾƛ2(X);L", "1{λX;†X}",
+    "λ0|5X;†", "λ0|X;†", "4 5λ2|X;†", "1(1£{X¥|0£})", "2(1£{x¥|0£})", "λ1£{X¥|0£};†", "1(0 1{X|})", "@h:1|X;4@h;", "@h:a|←a X;4@h;", "7λλ0|1X;†__;†",
 ]
 PROBES = ["n", "λn;†", "2(n)", "`n`Ė", "@p|n;@p;", "2ɾƛn;L"]
 MENU = ATOMS + STRUCTS + EARLY
@@ -35,6 +36,10 @@ CHAIN = [
     ("for", "2(", ")", True), ("while", "2→%s {←%s |←%s ‹→%s ", "}", True),
     ("lambda", "λ", ";†", False), ("map", "2ɾƛ", ";L", False), ("function", "@f|", ";@f;", False), ("list", "⟨", "⟩", False),
     ("filter", "2ɾ'", ";L", False),
+    ("while-cond", "1£{", "¥|0£}", False),        # the inner construct sits in the CONDITION of a while loop (evaluated twice)
+    ("lambda0", "λ0|", ";†", False),              # a lambda called with zero arguments
+    ("lambda2", "4 5λ2|", ";†", False),
+    ("function-args", "4 5@z:1:b|", ";@z;", False),
 ]
 LEAVES = ["X", "x", "n", "n,", "1X2", ":[X]"]
 
@@ -98,7 +103,7 @@ def build(hist, inputs=(3, 4)):
     st.boundary_violation = None
     out = io.StringIO()
     try:
-        with sandbox.watchdog(4.0), contextlib.redirect_stdout(out):
+        with sandbox.watchdog(2.0), contextlib.redirect_stdout(out):
             for i, stmt in enumerate(hist):
                 exec(code_of(stmt), st.ns)
                 snap = snapshot(st.ctx, st.stack)
@@ -206,7 +211,12 @@ def run(tier, seed):
     rep = Report(PROP, tier, seed, "model_checking")
     quick = tier == "quick"
     cd = 4
-    explore.pmap(_chain_shard, [([c], 1) for c in CHAIN] + [([(a, b)], cd) for a in CHAIN for b in CHAIN], rep, seed)
+    base = CHAIN[:9]   # depth 4 over the nine basic elements; the four extra ones (while condition, lambda arities, function
+    extra = CHAIN[9:]  # arguments) are combined with everything up to depth 3
+    sh = [([c], 1) for c in CHAIN] + [([(a, b)], cd) for a in base for b in base]
+    sh += [([(a, b)], 3) for a in CHAIN for b in CHAIN if a in extra or b in extra]
+    sh += [([(a, b, c)], 3) for a in base for b in base for c in extra]
+    explore.pmap(_chain_shard, sh, rep, seed)
     explore.pmap(_pair_shard, [(c, PROBES) for c in explore.chunks(EARLY + STRUCTS, 32)], rep, seed)
     depth = 2 if quick else 3
     menu = MENU
@@ -233,7 +243,7 @@ def run(tier, seed):
     rep.sample({"program": "3(nx) λn;† n"})
     rep.sample({"program": "3ɾ, 2ɾƛn;L n"})
     rep.assumptions = ["each top-level statement is exec'd separately (so the boundary between statements is observable)",
-                       "terminating = returns within a 4 s backstop"]
+                       "terminating = returns within a 2 s backstop"]
     return rep
 
 
